@@ -33,35 +33,33 @@ def kind_label(sec):
 
 # ---------------------------------------------------------------------------
 # monitors
-def check_cursor(events, pel, data, ctx, tag):
-    """Deciding cursor monitor (C01): the main stream is read contiguously, no read
-    straddles a section boundary, every read returns what was asked, the cursor
-    ends at the end of the log."""
+def check_cursor(events, pel, data, ctx, tag, final_index=None):
+    """Deciding cursor monitor (C01).  Every movement of the main stream's cursor (recorded by the `index` descriptor,
+    whatever method caused it) must stay inside one section: a movement a -> b may not pass over a section boundary
+    (it may start or end exactly on one), in either direction; and the cursor must end at the end of the log."""
+    if final_index is not None and final_index != len(data):
+        ctx.violation("C01/cursor-end", "%s: cursor ended at %d, log has %d bytes" % (tag, final_index, len(data)), data=data)
     if not events:
         ctx.count("cursor.unobserved")
         return
     main = events[0][0]
-    ev = [e for e in events if e[0] == main]
-    bounds = set(off for off, _ in pel.offsets())
-    pos = 0
-    for _, start, n, kind, got in ev:
+    bounds = sorted(off for off, _ in pel.offsets())
+    import bisect
+    pos = None
+    for sid, start, n, kind, _ in events:
+        if sid != main:
+            continue
         ctx.count("cursor.reads")
-        if start != pos:
-            ctx.violation("C01/cursor-jump", "%s: cursor moved from %d to %d without a read (sections at %s)" %
-                          (tag, pos, start, sorted(bounds)[:12]), data=data)
+        lo, hi = (start, start + n) if n >= 0 else (start + n, start)
+        k = bisect.bisect_right(bounds, lo)
+        if k < len(bounds) and bounds[k] < hi:
+            ctx.violation("C01/read-straddles-section-boundary" if n >= 0 else "C01/cursor-moved-back-across-sections",
+                          "%s: the cursor moved %d -> %d, passing over the section boundary at %d without stopping there "
+                          "(sections start at %s)" % (tag, start, start + n, bounds[k], bounds[:12]), data=data)
             return
-        if got != n:
-            ctx.violation("C01/short-read", "%s: read of %d bytes at %d returned %d" % (tag, n, start, got), data=data)
-            return
-        for b in bounds:
-            if start < b < start + n:
-                ctx.violation("C01/read-straddles-section-boundary",
-                              "%s: a %d-byte read at offset %d crosses the section boundary at %d" % (tag, n, start, b),
-                              data=data)
-                return
         pos = start + n
-    if pos != len(data):
-        ctx.violation("C01/cursor-end", "%s: cursor ended at %d, log has %d bytes" % (tag, pos, len(data)), data=data)
+    if final_index is None and pos != len(data):
+        ctx.violation("C01/cursor-end", "%s: cursor ended at %s, log has %d bytes" % (tag, pos, len(data)), data=data)
     ctx.count("cursor.checked")
 
 
@@ -229,13 +227,13 @@ def run_case(pel, ctx, focus, allow_plugins=True, reg=(), tag=""):
         ctx.count("names.checked")
         if len(set(names)) != len(names):
             ctx.violation("C01/duplicate-entry", "duplicate top-level keys %r" % names, data=data)
-        check_cursor(events, pel, data, ctx, tag)
-        if HEADERLOG.attached:
+        check_cursor(events, pel, data, ctx, tag, o.final_index)
+        if HEADERLOG.attached and HEADERLOG.positions:
+            # auxiliary (an internal helper's call positions): sharpens witnesses, never decides on its own
             offs = [off for off, _ in pel.offsets()]
             if HEADERLOG.positions != offs:
-                ctx.violation("C01/section-header-position",
-                              "section headers were read at %s, sections start at %s" %
-                              (HEADERLOG.positions[:20], offs[:20]), data=data)
+                ctx.count("headerlog.differs")
+                ctx.note("parseHeader called at %s, sections start at %s" % (HEADERLOG.positions[:12], offs[:12]))
             ctx.count("headerlog.checked")
         for (name, _), sec in zip(o.pairs, secs):
             probs = []
